@@ -1,11 +1,16 @@
 """C12 - overlapping connections to one service are serialised and cannot roll state back (engine E3)."""
-import os, pickle, json, itertools, collections
+import os, pickle, json, itertools, collections, asyncio
 from mc import core, det, vnet, fe
 
 PROPERTY = 'C12'
 ENGINE = 'E3 stateless exploration of ALL delivery/timer schedules of 2 (deviation-bounded: 3) scripted raw connections against the real handler, ServicesManager and websockets on the virtual network'
 LEVEL = 'model_checking'
 SCRIPTS = {'C': ['config'], 'CU': ['config', 'upload'], 'U': ['upload'], 'S': ['search'], 'CUS': ['config', 'upload', 'search'], 'X': []}
+# scripts used only in the triples below: 'hold' keeps the connection open until nothing else can happen (a client that is slow to
+# leave); 'giveup' closes as soon as the server's wait notice arrives, i.e. WHILE waiting for the earlier connection
+SCRIPTS.update({'H': ['hold'], 'CH': ['config', 'hold'], 'CUH': ['config', 'upload', 'hold'], 'G': ['giveup']})
+PAIR_SCRIPTS = ['C', 'CU', 'U', 'S', 'CUS', 'X']
+HOLD_TRIPLES = [('CH', 'G', 'C'), ('H', 'G', 'C'), ('CH', 'G', 'U'), ('CUH', 'G', 'U'), ('CUH', 'G', 'S'), ('H', 'G', 'S'), ('CH', 'C', 'G'), ('H', 'X', 'CU')]
 REQ = {'config': 'config', 'upload': 'upload_edb', 'search': 'token'}
 REPLY = {'config': 'config', 'upload_edb': 'upload', 'result': 'search'}
 TRIPLES = [('C', 'S', 'S'), ('C', 'C', 'C'), ('CU', 'U', 'S'), ('C', 'U', 'S'), ('CU', 'CU', 'S'), ('C', 'CU', 'U'), ('CU', 'X', 'U'), ('CU', 'X', 'S'), ('C', 'X', 'C')]
@@ -18,7 +23,7 @@ LIMIT3 = {'quick': 1500, 'thorough': 60000}
 def describe(tier):
     return {
         'rule': 'execution = (initial durable state s0 in {0,1,2} prepared by a sequential prefix, k scripted raw connections on one sid, schedule); '
-                'scripts from {[config],[config,upload],[upload],[search],[config,upload,search],[] (open, then close without a request - possibly while still waiting)} each ending in close, every connection with its own '
+                'scripts from {[config],[config,upload],[upload],[search],[config,upload,search],[] (open, then close without a request)} each ending in close (the triple-hold units add: hold = stay open until nothing else can happen; giveup = close on the wait notice, i.e. while waiting), every connection with its own '
                 'distinguishable configuration and index (and, in the pair-paths units, its own request path / query string; in the *-pending units the connection of the sequential prefix has just closed and its delayed cleanup is still pending, i.e. up to four connections per sid); a scripted client sends its next request as soon as it has its reply. Choice points = which '
                 'connection\'s next server-bound frame (init, request, close frame, EOF) is delivered next and whether the server\'s 1 s cleanup timer '
                 'fires first; per-connection FIFO; client-bound frames and HTTP upgrades are delivered eagerly. ALL schedules are enumerated for '
@@ -39,7 +44,7 @@ def describe(tier):
 
 def units(tier, seed):
     us = []
-    names = list(SCRIPTS)
+    names = list(PAIR_SCRIPTS)
     for s0 in (0, 1, 2):
         for a, b in itertools.product(names, repeat=2):
             us.append(('pair/s%d/%s/%s' % (s0, a, b), {'s0': s0, 'scripts': [a, b], 'bound': None, 'limit': LIMIT2[tier]}))
@@ -48,6 +53,9 @@ def units(tier, seed):
             if a == 'X' and b == 'X':
                 continue
             us.append(('pair-paths/s%d/%s/%s' % (s0, a, b), {'s0': s0, 'scripts': [a, b], 'bound': BOUND3[tier], 'limit': LIMIT2[tier], 'paths': 'distinct'}))
+    for s0 in (0, 1, 2):
+        for t in HOLD_TRIPLES:
+            us.append(('triple-hold/s%d/%s' % (s0, '-'.join(t)), {'s0': s0, 'scripts': list(t), 'bound': BOUND3[tier], 'limit': LIMIT3[tier], 'pending': s0 > 0}))
     for s0 in (1, 2):
         for t in TRIPLES:
             us.append(('triple-pending/s%d/%s' % (s0, '-'.join(t)), {'s0': s0, 'scripts': list(t), 'bound': BOUND3[tier], 'limit': LIMIT3[tier], 'pending': True}))
@@ -158,7 +166,18 @@ def execute(fx, s0, scripts, prefix, max_steps=60000, paths='same', pending=Fals
                         log.append((j, 'init', pickle.loads(msg['content']).get('state')))
                         break
                     log.append((j, msg['type']))
+                    if msg['type'] == 'control' and script == ['giveup']:
+                        await ws.close()                      # told to wait: this client does not
+                        log.append((j, 'gave-up-while-waiting'))
+                        return
                 for req in script:
+                    if req == 'giveup':
+                        continue
+                    if req == 'hold':
+                        # longer than vnet's SHORT timer rule: it expires only when nothing else is enabled, i.e. this client
+                        # leaves last
+                        await asyncio.sleep(5.0)
+                        continue
                     if req == 'config':
                         payload, extra = pickle.dumps(fx.cfgs[j]), {}
                     elif req == 'upload':
